@@ -109,6 +109,9 @@ theorem CV.toV_inv : ∀ cv : CV, cv.toV.Inv
   | .none => by simp [CV.toV, V.Inv]
   | .list xs => by simp only [CV.toV, V.Inv]; exact CV.toVL_inv xs
   | .map kvs => by simp only [CV.toV, V.Inv]; exact CV.toVM_inv kvs
+  | .bytes bs => by simp [CV.toV, V.Inv]
+  | .float cs => by simp [CV.toV, V.Inv]
+  | .obj t => by simp [CV.toV, V.Inv]
 theorem CV.toVL_inv : ∀ xs : List CV, V.InvL (CV.toVL xs)
   | [] => by simp [CV.toVL, V.InvL]
   | x :: xs => by simp only [CV.toVL, V.InvL]; exact ⟨CV.toV_inv x, CV.toVL_inv xs⟩
